@@ -7,6 +7,17 @@ VERIF = os.path.dirname(os.path.dirname(os.path.abspath(__file__)))
 props = [json.loads(l) for l in open(os.path.join(VERIF, "properties.jsonl"))]
 
 CLAIMED = {
+    "C15": dict(
+        text="Machine-checked proofs (Coq), for every error value of an inductive error algebra (any nesting depth, any texts), about the two classifiers "
+             "regenerated from error.go on every run: never both, nil neither, every non-nil error exactly one, context/deadline/TimeoutError causes at any "
+             "depth transient, config/permission/bucket causes permanent; and, by computation, that the error values captured from the real NATS client on "
+             "this run (through the library's adapter against an embedded server) classify as the property demands. The generated functions and the "
+             "model's Error() text are executed against IsPermanentError/IsTransientError/Error() on seeded random error values.",
+        design_ref="5.15",
+        note="Trusted: Coq kernel, go2coq, extraction, the hand-written error algebra Err.v (validated by comparing Error() text and classifications with Go on every run; "
+             "errors.Join / multiple %w not modelled; ToLower on ASCII). No axioms.",
+        technique="Coq proof (structural, all error values) about translator-regenerated classifiers + differential execution against Go + live capture of NATS errors",
+    ),
     "C16": dict(
         text="Machine-checked proof (Coq) that the validation function regenerated from validation.go on every run accepts exactly "
              "the documented configurations and names an offending field otherwise (all strings, all durations with |H| <= 2^61 ns, all ints), "
